@@ -19,10 +19,12 @@ RULE = ("GFF3 file databases with a depth-4 hierarchy, multi-parent and id-less 
         "{A: update(create_unique batch), B: update(merge batch), C: update(replace batch), E: update([]), D: delete, "
         "R: add_relation, O: close/reopen, M: store the outputs of merge() through update}: all words of length <= 3 (quick) / <= 5 (thorough), random words to length 12; "
         "fault cases: an update of n features whose one-shot source raises at position k for every k in 0..n, "
-        "checklines 0 and 1; non-trivial history = contains an update after a delete or reopen; distinct by (base salt, word) "
+        "checklines 0 and 1; random words of length 2..6 on a database opened under another spelling of its path (symbolic link beside "
+        "the file / in another directory, relative path, redundant components), '<path given>.bak' judged; non-trivial history = contains an update after a delete or reopen; distinct by (base salt, word) "
         "and by (n, k, checklines)")
 REQUIRED = ["merges into a feature whose parent was deleted earlier", "the caller's Feature object handed in again after the merged feature was deleted",
             "updates whose text is written in another spelling than the database's dialect", "auto-keyed updates after a failed update on the same handle", "second-handle comparisons", "look-ups with Feature objects fetched before the step", "updates with hand-built Feature objects", "merge() outputs stored through update", "spawn-history steps compared", "bulk deletes (hundreds of ids in one call)", "iteration order compared after a step", "live-handle comparisons", "history steps applied", "content dumps compared with the model", ".bak compared with pre-operation content",
+            ".bak of the path the database was opened under compared with pre-operation content",
             "auto-generated keys checked for freshness", "faults injected", "faults injected mid-import (beyond the peek window)",
             "reopen steps", "failpoints fired inside gffutils", "metamorphic comparisons (batched updates vs single import)",
             "metamorphic comparisons (delete undoes the last update)"]
@@ -245,6 +247,46 @@ def cleanup(dbfn):
             os.unlink(p)
 
 
+VIAS = ("link", "link in another directory", "relative", "redundant components")
+
+
+def make_alias(ctx, dbfn, via):
+    """Another spelling of the path of the database file `dbfn` (the caller opens the database under THAT name):
+    returns (path to open, list of things to remove afterwards) or (None, []) where the platform cannot do it."""
+    made = []
+    try:
+        if via == "link":
+            alias = ctx.tmp(".current.db")
+            os.symlink(dbfn, alias)
+            made.append(alias)
+        elif via == "link in another directory":
+            d = ctx.tmp(".dir")
+            os.mkdir(d)
+            made.append(d)
+            alias = os.path.join(d, "current.db")
+            os.symlink(dbfn, alias)
+            made.insert(0, alias)
+        elif via == "relative":
+            alias = os.path.relpath(dbfn)
+        else:
+            alias = os.path.join(os.path.dirname(dbfn), ".", ".", os.path.basename(dbfn))
+    except (OSError, NotImplementedError, AttributeError, ValueError):
+        remove_alias(made)
+        return None, []
+    return alias, made
+
+
+def remove_alias(made, opened=None):
+    for p in ([opened + ".bak"] if opened else []) + list(made):
+        try:
+            if os.path.isdir(p) and not os.path.islink(p):
+                os.rmdir(p)
+            elif os.path.lexists(p):
+                os.unlink(p)
+        except OSError:
+            pass
+
+
 def history(ctx, case):
     import gffutils
 
@@ -253,6 +295,20 @@ def history(ctx, case):
     trace = []
     other = None
     handles = {}
+    # the name under which the caller opens (and reopens) the database; '<that name>.bak' is the backup the statement means
+    opened, made = dbfn, []
+    if case.get("via"):
+        opened, made = make_alias(ctx, dbfn, case["via"])
+        if opened is None:
+            db.conn.close()
+            cleanup(dbfn)
+            ctx.skip("this platform cannot make a path alias of kind %r" % case["via"])
+            return
+        db.conn.close()
+        db = gffutils.FeatureDB(opened)
+        trace.append({"opened as": case["via"]})
+        ctx.mon("histories on a database opened under another spelling of its path (%s)" % case["via"])
+    aliased = opened != dbfn
     try:
         d = model.compare(dbdump.dump(dbfn))
         if d:
@@ -286,7 +342,7 @@ def history(ctx, case):
                             os.unlink(tmp)
                     if args["batch"]:
                         model.update(args["batch"], args["strategy"])
-                    check_bak(ctx, case, dbfn, before, step, trace)
+                    check_bak(ctx, case, opened, before, step, trace, aliased=aliased)
                 elif args["op"] == "delete":
                     ids = args["ids"]
                     if args["how"] == "str":
@@ -298,7 +354,7 @@ def history(ctx, case):
                     else:
                         db.delete([db[i] if n % 2 else i for n, i in enumerate(ids)], make_backup=True)
                     model.delete(ids)
-                    check_bak(ctx, case, dbfn, before, step, trace)
+                    check_bak(ctx, case, opened, before, step, trace, aliased=aliased)
                 elif args["op"] == "add_relation":
                     p, c = args["parent"], args["child"]
                     kw, pe, ce = {}, None, None
@@ -325,7 +381,7 @@ def history(ctx, case):
                     model.add_relation(p, c, args["level"], parent_edit=pe, child_edit=ce)
                 elif args["op"] == "reopen":
                     db.conn.close()
-                    db = gffutils.FeatureDB(dbfn)
+                    db = gffutils.FeatureDB(opened)
                     ctx.mon("reopen steps")
                 elif args["op"] == "store_merged":
                     # merge() hands out generated keys from the live counters; storing its outputs makes them persistent
@@ -346,6 +402,7 @@ def history(ctx, case):
                     if merged:
                         db.update(merged, merge_strategy="error", make_backup=True)
                         model.update(recs, "error")
+                        check_bak(ctx, case, opened, before, step, trace, aliased=aliased)
                         ctx.mon("merge() outputs stored through update")
             except Exception as ex:
                 ctx.violation(case, {"why": "step %d (%s) raised %r" % (step, args["op"], ex), "trace": trace, "base": text})
@@ -403,6 +460,8 @@ def history(ctx, case):
             except Exception:
                 pass
         cleanup(dbfn)
+        if aliased:
+            remove_alias(made, opened)
 
 
 def stale_handles(ctx, case, db, handles, dump, step, trace):
@@ -484,9 +543,11 @@ def live_agrees(ctx, case, db, dump, step, trace, who="the handle that made the 
     return True
 
 
-def check_bak(ctx, case, dbfn, before, step, trace):
+def check_bak(ctx, case, dbfn, before, step, trace, aliased=False):
     bak = dbfn + ".bak"
     ctx.mon(".bak compared with pre-operation content")
+    if aliased:
+        ctx.mon(".bak of the path the database was opened under compared with pre-operation content")
     if not os.path.exists(bak):
         ctx.violation(case, {"why": "no .bak file after step %d" % step, "trace": trace})
         return False
@@ -1007,6 +1068,15 @@ def run(ctx):
         case = {"kind": "history", "salt": rng.randrange(1000), "word": word}
         execute(ctx, case)
         ctx.case(("history", case["salt"], word), nontrivial(word), cls="random history")
+    # the same histories on a database the caller opens under another spelling of its path (a symbolic link beside the
+    # file or in another directory, a relative path, redundant path components): '<the path given>.bak' is the backup
+    for _ in range(ctx.budget(120, 3000)):
+        L = rng.randrange(2, 7)
+        word = "".join(rng.choice("ABCDDOM") for _ in range(L))
+        case = {"kind": "history", "salt": rng.randrange(1000), "word": word, "via": VIAS[rng.randrange(len(VIAS))]}
+        execute(ctx, case)
+        ctx.case(("history", case["salt"], word, case["via"]), nontrivial(word), sample=case if rng.random() < 0.05 else None,
+                 cls="history on a database opened through %s" % ("a symbolic link" if "link" in case["via"] else "a non-canonical path"))
     j = 0
     for n in range(1, 6):
         for k in range(0, n + 1):
